@@ -304,6 +304,24 @@ func TestPrintClauseByteLevel(t *testing.T) {
 	})
 }
 
+// TestPrintClauseSemanticErrors: trees returned together with the grammars' own (semantic) error reports.
+func TestPrintClauseSemanticErrors(t *testing.T) {
+	harness.Check(t, "print-clause-semantic", 8000, 300000, func(rt *rapid.T) {
+		src := inputs.SemanticErrorProgram(rt)
+		v := rapid.SampledFrom(px.KeyVersions).Draw(rt, "version")
+		r := px.Parse(src, v, true)
+		if r.Panic != "" || astx.IsNil(r.Root) || len(r.Errs) == 0 {
+			return
+		}
+		harness.Eval()
+		harness.Class("src=semantic-error-program")
+		if cl, msg := printClause(src, r.Root); cl != "" {
+			harness.Fail(rt, cl, src, meta(v), "[%s errors=%d] %s\nsource: %q", v, len(r.Errs), msg, src)
+		}
+		harness.NonTrivial(append([]byte(v.String()), src...), fmt.Sprintf("[%s errors=%d] %q", v, len(r.Errs), trunc(src, 200)))
+	})
+}
+
 func TestCorpusReplay(t *testing.T) {
 	if harness.Shard() != 0 {
 		t.Skip("shard 0 only")
